@@ -138,6 +138,18 @@ def exec_one(case):
     obj, arr = make_object(case)
     what = f"{type(obj).__name__}({case['kind']})"
     exp_p = wcsgen.expected_parity(case["wcs"])
+    if case.get("companion"):
+        from toasty.image import ImageDescription, ImageMode
+
+        xs, ys = sample_pixels(case)
+        v0, ok0 = world(obj.wcs, xs, ys)
+        comp = ImageDescription(mode=ImageMode.F32, shape=(case["height"], case["width"]), wcs=obj.wcs)
+        with toasty_call("flip", "flipping a data-less description built on the same WCS object"):
+            for op in case["companion"].split("+"):
+                comp.flip_parity() if op == "flip" else comp.ensure_negative_parity()
+        v1, ok1 = world(obj.wcs, xs, ys)
+        if obj.get_parity_sign() != exp_p or not np.array_equal(ok0, ok1) or (ok0.any() and rt.ang_dist(v0[ok0], v1[ok0]).max() > 1e-12):
+            raise Violation("sky-position", f"{what}: flipping a description that was built on this object's WCS changed this object's own WCS (parity now {obj.get_parity_sign()}, was {exp_p}); its pixels moved on the sky although its rows were not reversed")
     with toasty_call("parity"):
         p = obj.get_parity_sign()
     if p != exp_p:
@@ -179,6 +191,10 @@ def exec_one(case):
     cls = [case["kind"], s["proj"], s["spelling"], "parity%+d" % s["parity"], s["crpix_mode"], "+".join(case["ops"]) if len(case["ops"]) <= 3 else f"{len(case['ops'])}-ops"]
     if case["ops"].count("flip") >= 3:
         cls.append("three-or-more-flips")
+    if s.get("lonpole") is not None:
+        cls.append("explicit-lonpole")
+    if case.get("companion"):
+        cls.append("companion-on-shared-wcs")
     right = s["rot"] in (90.0, -90.0, 270.0)
     if right:
         cls.append("exact-90deg")
@@ -199,6 +215,12 @@ def strat(draw, tier):
         "kind": kind, "width": draw(size), "height": draw(size), "wcs": draw(wcsgen.wcs_specs()), "ops": ops,
         "pixels": draw(st.lists(st.tuples(st.floats(-0.2, 1.2), st.floats(-0.2, 1.2)), max_size=4)),
     }
+    if case["wcs"]["proj"] in ("TAN", "SIN", "ARC", "STG") and draw(st.integers(0, 5)) == 0:
+        # (zenithal projections: any native longitude of the pole is a valid rotation about the reference point)
+        case["wcs"]["lonpole"] = draw(st.sampled_from([0.0, 135.0, 90.0, 180.0, -45.0, 10.5]))
+    if draw(st.integers(0, 4)) == 0:
+        # another object that shares this one's WCS object is flipped first: this one must not notice
+        case["companion"] = draw(st.sampled_from(["flip", "ensure", "flip+flip"]))
     if draw(st.integers(0, 2)) == 0:
         before = []
         for _ in range(draw(st.integers(1, 3))):
